@@ -11,6 +11,7 @@
 #include <stdlib.h>
 #include <string.h>
 #include <errno.h>
+#include <pthread.h>
 #include "qlibc.h"
 #include "vfc.h"
 
@@ -169,9 +170,10 @@ static void cb_drop(cbuf_t *c) {   /* scribble, then release: the table must not
     hm_free(c->base); c->base = c->p = NULL;
 }
 
+static int TREE_OPT;      /* C15 phase: alternate the thread-safe flag so that a lock left held by a failed call is observable */
 static void table_new(void) {
     ledger_mark = vf_ledger_mark();
-    T = qtreetbl(0);
+    T = qtreetbl(TREE_OPT);
     if (!T) { fprintf(stderr, "qtreetbl() failed\n"); exit(2); }
     if (ORD[ORDI].installed) T->set_compare(T, ORD[ORDI].installed);
     MCMP = ORD[ORDI].model;
@@ -830,6 +832,13 @@ static void oom_battery(void) {   /* normal operations afterwards must behave */
         if (c == 0) op_put(id); else if (c == 1) op_remove(id); else if (c == 2) op_get(id); else op_walk(-1, false);
         if (!abandon) { content_check(); if (!abandon) structure_check(true); } }
 }
+static void *oom_probe_main(void *m) { int r = pthread_mutex_trylock(m); if (r == 0) pthread_mutex_unlock(m); return (void *)(intptr_t)r; }
+static bool oom_lock_left_held(void) {
+    if (!T->qmutex) return false;
+    pthread_t t; void *r = NULL; if (pthread_create(&t, NULL, oom_probe_main, T->qmutex)) return false; pthread_join(t, &r);
+    vf_count("lock_probes_from_a_second_thread", 1);
+    return (intptr_t)r != 0;
+}
 static void phase_oom(int U) {
     int cfg = VF.shard;
     ORDI = cfg % NORD;
@@ -871,7 +880,8 @@ static void phase_oom(int U) {
             if (abandon) continue;
             vf_max("max_allocations_in_one_call", K);
             for (long k = 1; k <= K && k <= 24; k++) for (int all = 0; all < 2; all++) {
-                table_new(); replay_path(s.path, s.len);
+                TREE_OPT = ((qh + (size_t)o + (size_t)id + (size_t)k) & 1) ? QTREETBL_THREADSAFE : 0;
+                table_new(); TREE_OPT = 0; replay_path(s.path, s.len);
                 vf_case_begin(caseno, "OOM state#%zu pathlen=%d op=%s k%d fail k=%ld %s", qh - 1, s.len, OON[o], id, k, all ? "all-subsequent" : "single");
                 { char pb[400]; int n = 0; for (int i = 0; i < s.len && n < 380; i++) n += snprintf(pb + n, sizeof pb - (size_t)n, "%c%d ", (s.path[i] & 0x80) ? '-' : '+', s.path[i] & 0x7f); pb[n] = 0; vf_log("path: %s", pb); }
                 if (o == OO_WALK) {   /* k counts allocations across the whole walk: fail inside the ceil(k/2)-th step */
@@ -888,6 +898,7 @@ static void phase_oom(int U) {
                 vf_count("evaluations", 1); vf_count("fault_positions_injected", 1);
                 vf_distinct("distinct", (structure_check(false) ^ USALT) * 4099 + (uint64_t)(o * 64 + id) * 64 + (uint64_t)k * 2 + (uint64_t)all);
                 { char nm[64]; snprintf(nm, sizeof nm, "qtreetbl.%s", OON[o]); vf_name("operations_covered", nm); }
+                if (!abandon && oom_lock_left_held()) { judge("C15", "lock-held-after-failure", "%s returned under an injected allocation failure with the table lock still held: a second thread can not take it", OON[o]); }
                 if (!abandon) { content_check(); if (!abandon) structure_check(true); }
                 if (!abandon) oom_battery();
                 table_free();
